@@ -247,10 +247,11 @@ CONFIG = {
         "store options and wrappers: DisableOverwrite, IgnoreNoName (documented discard: Push returns nil without reading), NewWithFallbackStorage(unlimited cas.Memory) are modelled (file_push_opt) and judged by the correspondence; ForceCAS only matters for manifests; the public oci.Store / memory.Store are judged against the oci.Storage / cas.Memory models (for non-manifest media types their Push adds only graph/index bookkeeping)",
         "cas.Proxy is modelled for a cas.Memory cache (NewProxy / NewProxyWithLimit), a caller that issues any sequence of Read sizes and then Close, StopCaching on/off; the io.Pipe is synchronous, which makes the session deterministic (a Write returns the prefix the push consumed + the push error, the drain loop after a successful push consumes the rest) -- this determinism is argued, the pipe itself is not a transition system; a caller that never calls Close (its observation would race with the push goroutine), Proxy over other cache implementations and Proxy.Exists are not modelled",
         "concurrency: three transition systems with invariant theorems over every schedule -- oci.Storage pushes (cstep: Stat / CreateTemp / Write / Remove / Rename), cas.Memory / LimitedStorage pushes (mstep: Load / ReadAll / LoadOrStore), named file.Store pushes (fstep: name lock, duplicate check, resolveWritePath, Create, CopyBuffer, record-or-remove; digestToPath.Store and status.exists are one step); their exhaustive explorers are proved sound and complete, and for the OCI system splitting the Writes is proved not to add outcomes (C05_split_writes_explored) and the explorer's fuel 4n+2 is proved sufficient (C05_explorer_fuel) and races of 2-3 goroutines must end in one of the explored outcomes; larger races, oci.Store races and the 'at every instant' clause are observed by a polling goroutine (Fetch and a walk of blobs/), i.e. by sampling; no per-syscall traces",
+        "translator (layer T) for C05: defaultFallbackPushSizeLimit (const), go-digest algorithm table (c05_digest_algs), 17 source facts (c05_srcfact, C05_source_facts), the size guards of LimitedStorage.Push / ReadAll / NewVerifyReader / Verify as Gallina functions (c05_zguard, C05_source_guards), AST anchors of 30 mirrored functions",
         "the in-Coq vm_compute re-evaluation of correspondence cases (ReadAll, CopyBuffer, faulty destination, store / file / proxy histories): about 70 goals in the quick tier, 360 in the thorough tier",
     ],
     "level_text": "Coq theorems for every reader script (arbitrary chunking, 0-byte reads, errors at any offsets, data with EOF/error), every descriptor, every digest function and every fuel above the script weight: ReadAll / FetchAll / any use of VerifyReader / CopyBuffer (any buffer size, also into a failing or short-writing destination) succeed only with exactly the descriptor's bytes and an exhausted reader, and do succeed on every well-behaved reader of the right bytes; malformed or unsupported digest, negative size, short or failing reader, wrong first-Size bytes and trailing bytes are always errors; Push on memory, limited, OCI and file stores (resolveWritePath and the options DisableOverwrite / IgnoreNoName / fallback limit included) stores exactly those bytes or leaves Exists/Fetch/blobs unchanged, over all histories; the caching proxy's cache only ever holds verified content over all fetch histories; three transition systems (OCI, memory/limited, named file pushes) keep everything visible verified under every schedule; refuted witnesses for the pre-fix negative size and for file-name aliasing. Model tied to the code by differential runs (scripted readers x descriptors x push / fetch histories on the real stores and wrappers, listings of blobs/, ingest/ and the working directory, a final sweep of every descriptor), outcome membership of goroutine races in the exhaustively explored (sound + complete) model outcomes, translator-regenerated digest table and source facts, an in-Coq vm_compute sample, and an independent SHA-2 oracle",
-    "level_note": "digest function abstract (no SHA-2 model); Go io helpers hand-modelled and tied by correspondence, AST hashes and 17 translator-checked source facts; go-digest table regenerated; sizes > 2^30 (oracle only), disk faults, symlinks / unpack / manifests in file.Store and non-closing proxy callers are not modelled; file.Store name aliasing violates the property (known finding file-alias-clobbers-visible; full theorems under no_alias or DisableOverwrite); concurrency theorems are tied to the code by outcome membership of small races, not by syscall traces",
+    "level_note": "digest function abstract (no SHA-2 model); Go io helpers hand-modelled and tied by correspondence, AST hashes, 17 translator-checked source facts and translator-generated size guards (c05_zguard: the model's guards are proved equal to the translated Go if-conditions); go-digest table regenerated; sizes > 2^30 (oracle only), disk faults, symlinks / unpack / manifests in file.Store and non-closing proxy callers are not modelled; file.Store name aliasing violates the property (known finding file-alias-clobbers-visible; full theorems under no_alias or DisableOverwrite); concurrency theorems are tied to the code by outcome membership of small races, not by syscall traces",
     "technique": "machine-checked proof in Coq (invariants of the VerifyReader state machine over all reader scripts, store invariants over all push histories, transition-system invariant over all interleavings) + translator-regenerated constants/AST anchors + model/implementation correspondence",
     "explanation": "theorems about an executable model of content/reader.go, internal/ioutil/io.go, cas.Memory, LimitedStorage, oci.Storage.Push and file.Store.push whose reader is an arbitrary script; the extracted model and the real code are run on the same generated scripts/descriptors/push histories and their results, Exists/FetchAll observations and directory listings are diffed; an independent oracle recomputes SHA-2 and checks the property statement directly (also under goroutine races and through the caching proxy)",
 }
